@@ -77,7 +77,11 @@ inductive Op where
   | ft (ms : Nat)                 -- clock advance
   | acquire (i : Nat)             -- locks[i].Acquire()
   | release (i : Nat)             -- locks[i].Release()
-  | setExpire (i : Nat) (s : Int) -- locks[i].SetExpire(s)
+  | setExpire (i : Nat) (s : Int) -- locks[i].SetExpire(s)  (one atomic StoreUint32)
+  | acquireS (i : Nat) (seconds : Nat)
+      -- the script run of an Acquire whose `atomic.LoadUint32(&rl.seconds)` returned `seconds` earlier:
+      -- with it a history is an arbitrary *schedule* of the atomic steps of concurrent callers
+      -- (load, script run, store), not only of whole calls.  `acquire i` = load and run back to back.
   deriving Repr, DecidableEq
 
 /-- the script run of `Acquire` with an explicit `seconds` value (what `atomic.LoadUint32` returned). -/
@@ -97,6 +101,7 @@ def step (cfg : Nat → LockCfg) (st : St) : Op → St × Bool
   | .acquire i => acquire cfg st i
   | .release i => release cfg st i
   | .setExpire i s => ({ st with secs := updN st.secs i (toUint32 s) }, true)
+  | .acquireS i seconds => acquireWith cfg st i seconds
 
 def run (cfg : Nat → LockCfg) (st : St) (ops : List Op) : St := ops.foldl (fun s op => (step cfg s op).1) st
 
